@@ -76,7 +76,7 @@ def gen_item(seed, tier):
     knobs['path_star'] = True
     line_tier = rng.random() < (0.25 if tier == 'thorough' else 0.08)
     return {'target': target, 'segs': segs, 'style': style, 'val': val, 'missing': missing,
-            'api': api, 'knobs': knobs, 'line_tier': line_tier}
+            'api': api, 'knobs': knobs, 'line_tier': line_tier, 's_rooted_last': rng.random() < 0.5}
 
 
 def _factory_for_model(missing):
@@ -167,7 +167,10 @@ class Run:
             sp_path = S['x']
             for op, arg in item['segs']:
                 sp_path = sp_path[arg]
-            sp = (S(x=T), G.Assign(sp_path, val, missing=missing), S['x'])
+            if item.get('s_rooted_last'):
+                sp = (S(x=T), G.Assign(sp_path, val, missing=missing))      # the Assign's own return value
+            else:
+                sp = (S(x=T), G.Assign(sp_path, val, missing=missing), S['x'])
             th = lambda: G.glom(tgt, sp)
         self.res = self.k.run_single(th)
         self.after = canon.snapshot(self.target)
